@@ -18,7 +18,7 @@ from decimal import Decimal
 
 import core
 
-READY = False
+READY = True
 MANIFEST = dict(
     technique='Lean 4 theorems over a bit-exact integer model of the binary64 operations (correctly rounded n/1000, x*1000, round-half-even) with a proved half-ulp error bound, and over transcribed string level models of the decimal / integer / boolean / enum / duration converters; correspondence with the real converters (floats via float.hex()), dense millisecond window exhaustively',
     text='Properties/C18.lean proves: to_xml(to_py(n)) = n for EVERY millisecond count n < 2^53/1000 (no sampling: error analysis of the two roundings proved about the executable rnRat/rnMul), |to_py(to_xml(x)) - x| < 1 ms for every float 0 <= x <= 2^41 s, value preservation and absence of exponent notation for every Decimal with <= 18 digits and exponent in [-18, 18] (both directions, negative and zero included), the duration round trip for every integer microsecond count up to timedelta.max (including the float steps of the parser), parse_date_time(str(info)) == info for every well-formed date/time information, and rejection of every string outside the lexical space of xsd:integer / xsd:decimal (after white space collapse), of the SDPi duration pattern, and of every non-literal for enums. For xsd:boolean the statement is refuted (to_py never rejects) - known finding.',
